@@ -4,6 +4,21 @@ From Coq Require Import List NArith ZArith Bool Arith Lia.
 From Synnax Require Import Cesium.FsLog Cesium.Crash Cesium.CrashProofs Generated.Consts_C02.
 Import ListNotations.
 
+Lemma triple_inj : forall (A B C : Type) (a a' : A) (b b' : B) (c c' : C),
+  (a, b, c) = (a', b', c') -> a' = a /\ b' = b /\ c' = c.
+Proof. intros. inversion H. auto. Qed.
+
+Ltac subst_eq E :=
+  match type of E with
+  | ?v = _ => is_var v; subst v
+  | _ = ?v => is_var v; subst v
+  | _ => idtac
+  end.
+
+Ltac step_inj H := let E1 := fresh in let E2 := fresh in let E3 := fresh in
+  destruct (triple_inj _ _ _ _ _ _ _ _ _ H) as [E1 [E2 E3]];
+  subst_eq E1; subst_eq E2; subst_eq E3.
+
 Definition widx (d : dirst) : N :=
   match dget d FIndex with Some b => N.of_nat (length b) | None => 0%N end.
 
@@ -26,12 +41,11 @@ Definition index_ok (d : dirst) : Prop :=
 
 Record Inv (s : st) (w : win) : Prop := mkInv {
   inv_head : s_head s = O;
-  inv_out : s_out s = [];
   inv_index : index_ok (s_fs s);
   inv_mem : mem_inr s;
-  inv_wf : forallb wf_ptr (s_ptrs s) = true;
   inv_wr : wr_ok s;
-  inv_widx : wi_idxlen w = widx (s_fs s)
+  inv_widx : wi_idxlen w = widx (s_fs s);
+  inv_none : s_fs s = None -> s_ptrs s = []
 }.
 
 Lemma index_ok_disk : forall fs D,
@@ -273,19 +287,50 @@ Proof. intros b off bs w. reflexivity. Qed.
 Lemma wquiet_create : forall f, wquiet (OCreate f).
 Proof. intros f w. reflexivity. Qed.
 
+(* did the operation rewrite the index ? *)
+Definition idx_written (es : list fsop) : bool :=
+  existsb (fun o => match o with OWrite _ FIndex _ _ => true | _ => false end) es.
+
+Lemma idx_written_app : forall a b, idx_written (a ++ b) = idx_written a || idx_written b.
+Proof. intros. unfold idx_written. apply existsb_app. Qed.
+
+Lemma grows_disk_ptrs : forall d d', grows d d' -> disk_ptrs d' = disk_ptrs d.
+Proof.
+  intros [fs|] [fs'|]; simpl; try tauto. intros [H _]. unfold disk_ptrs. simpl. rewrite H. reflexivity.
+Qed.
+
+(* what one do_* function must establish: s0 is the state the operation starts from, s1 the
+   state it returns *)
+Definition do_good (s0 : st) (w : win) (o : dop) (s1 : st) (oc : outcome) : Prop :=
+  legal_step s0 o (clear_out s1) oc = true ->
+  exists es, s_out s1 = rev es ++ s_out s0 /\ s_fs s1 = apply_all (s_fs s0) es /\
+             Inv s1 (fold_left win_step es w) /\ cuts_ok (s_fs s0) w es /\
+             (idx_written es = true -> disk_ptrs (s_fs s1) = s_ptrs s1).
+
 Definition step_good (s : st) (w : win) (o : dop) : Prop :=
   forall s' es oc, step s o = (s', es, oc) -> legal_step s o s' oc = true ->
-    s_fs s' = apply_all (s_fs s) es /\ Inv s' (fold_left win_step es w) /\ cuts_ok (s_fs s) w es.
+    s_fs s' = apply_all (s_fs s) es /\ Inv s' (fold_left win_step es w) /\ cuts_ok (s_fs s) w es /\
+    (idx_written es = true -> disk_ptrs (s_fs s') = s_ptrs s').
 
 Lemma cuts_ok_nil : forall d w, cuts_ok d w [].
 Proof. intros. apply all_same_cuts_ok. apply all_same_nil. Qed.
 
-(* an operation that issued no call and changed nothing the invariant looks at *)
 Lemma inv_clear : forall s w, Inv s w -> Inv (clear_out s) w.
-Proof. intros s w [H1 H2 H3 H4 H5 H6 H7]. constructor; auto. Qed.
+Proof. intros s w [H1 H3 H4 H6 H7 H8]. constructor; auto. Qed.
 
-Lemma clear_out_id : forall s, s_out s = [] -> clear_out s = s.
-Proof. intros [fs out ps hd c o u ws cap thr] H. simpl in H. subst. reflexivity. Qed.
+Lemma legal_step_clear : forall s o s' oc, legal_step (clear_out s) o s' oc = legal_step s o s' oc.
+Proof. intros. destruct o; reflexivity. Qed.
+
+Lemma rev_rev_nil : forall (A : Type) (l : list A), rev (rev l ++ []) = l.
+Proof. intros. rewrite app_nil_r. apply rev_involutive. Qed.
+
+(* nothing issued, nothing changed *)
+Lemma do_good_noop : forall s0 w o oc, Inv s0 w -> do_good s0 w o s0 oc.
+Proof.
+  intros s0 w o oc HI _. exists []. simpl.
+  split; [reflexivity|]. split; [reflexivity|]. split; [exact HI|].
+  split; [apply cuts_ok_nil|discriminate].
+Qed.
 
 Lemma wr_ok_grows_one : forall d d' x,
   grows d d' ->
@@ -297,52 +342,94 @@ Proof.
   rewrite app_length, Nat2N.inj_add. lia.
 Qed.
 
-Lemma mem_inr_grows : forall d d' (ps : list ptr),
-  grows d d' -> (forall p, In p ps -> inrb d p = true) -> forall p, In p ps -> inrb d' p = true.
-Proof. intros. eapply inrb_grows; eauto. Qed.
-
 Lemma flen_data : forall s k data, dget (s_fs s) (FData k) = Some data -> flen s k = N.of_nat (length data).
 Proof. intros s k data H. unfold flen. rewrite H. reflexivity. Qed.
 
-(* ---- DWrite *)
-Lemma step_write_good : forall s w wid bs, Inv s w -> step_good s w (DWrite wid bs).
+(* the state after issuing calls that only grow the directory *)
+Lemma inv_grown : forall s w s2 es,
+  Inv s w -> gops (s_fs s) es -> Forall wquiet es ->
+  s_fs s2 = apply_all (s_fs s) es -> s_ptrs s2 = s_ptrs s -> s_head s2 = s_head s ->
+  wr_ok s2 -> Inv s2 (fold_left win_step es w).
 Proof.
-  intros s w wid bs HI s' es oc Hstep Hleg.
-  destruct HI as [Hhead Hout Hidx Hmem Hwf Hwr Hwidx].
-  destruct (legal_post _ _ _ _ Hleg) as [Hwf' Hex'].
+  intros s w s2 es [Hhead Hidx Hmem Hwr Hwidx Hnone] Hg Hq Hfs Hp Hh Hw2.
+  assert (Hgr := gops_grows _ _ Hg).
+  rewrite wquiet_fold by auto.
+  constructor; auto; try congruence.
+  - rewrite Hfs. eapply grows_index_ok; eauto.
+  - unfold mem_inr. rewrite Hfs, Hp. intros p Hin. eapply inrb_grows; eauto.
+  - rewrite Hwidx, Hfs. symmetry. apply grows_widx. auto.
+  - intros Hn. rewrite Hp. apply Hnone. rewrite Hfs in Hn. rewrite Hn in Hgr.
+    destruct (s_fs s); [simpl in Hgr; contradiction|reflexivity].
+Qed.
+
+Lemma wr_ok_grown : forall s s2 es,
+  wr_ok s -> gops (s_fs s) es -> s_fs s2 = apply_all (s_fs s) es ->
+  forall id x, assoc (s_ws s) id = Some x ->
+    exists data, dget (s_fs s2) (FData (w_file x)) = Some data /\ (w_off x + w_len x <= N.of_nat (length data))%N.
+Proof.
+  intros s s2 es Hwr Hg Hfs id x Hx. rewrite Hfs.
+  eapply wr_ok_grows_one; [apply gops_grows; eauto|eauto].
+Qed.
+
+Lemma legal_wfile : forall s' id x,
+  forallb (fun iw => fexists s' (FData (w_file (snd iw)))) (s_ws s') = true ->
+  assoc (s_ws s') id = Some x ->
+  exists data, dget (s_fs s') (FData (w_file x)) = Some data.
+Proof.
+  intros s' id x H Hx. apply assoc_in in Hx. rewrite forallb_forall in H.
+  specialize (H _ Hx). simpl in H. unfold fexists in H.
+  destruct (dget (s_fs s') (FData (w_file x))) eqn:E; [eauto|discriminate].
+Qed.
+
+Lemma inv_same_disk : forall s w s2,
+  Inv s w -> s_fs s2 = s_fs s -> s_ptrs s2 = s_ptrs s -> s_head s2 = s_head s ->
+  wr_ok s2 -> Inv s2 w.
+Proof.
+  intros s w s2 [Hhead Hidx Hmem Hwr Hwidx Hnone] Hf Hp Hh Hw2.
+  constructor; auto; try congruence.
+  - unfold mem_inr. rewrite Hf, Hp. exact Hmem.
+  - rewrite Hf, Hp. exact Hnone.
+Qed.
+
+(* ---- DWrite *)
+Lemma do_write_good : forall s0 w wid bs s1 oc,
+  Inv s0 w -> do_write s0 wid bs = (s1, oc) -> do_good s0 w (DWrite wid bs) s1 oc.
+Proof.
+  intros s0 w wid bs s1 oc HI Hdo Hleg.
+  pose proof HI as [Hhead Hidx Hmem Hwr Hwidx Hnone].
   destruct (legal_dir _ _ _ _ Hleg) as [fs [ib [Hfs Hib]]].
-  unfold step in Hstep. rewrite (clear_out_id s Hout) in Hstep.
-  unfold do_write in Hstep.
-  destruct (assoc (s_ws s) wid) as [x|] eqn:Ex.
-  2:{ inversion Hstep; subst. rewrite (clear_out_id s Hout), Hout. simpl.
-      split; [reflexivity|]. split; [constructor; auto|apply cuts_ok_nil]. }
+  unfold do_write in Hdo.
+  destruct (assoc (s_ws s0) wid) as [x|] eqn:Ex.
+  2:{ inversion Hdo; subst. exact (do_good_noop _ _ _ _ HI Hleg). }
   destruct (Hwr _ _ Ex) as [data [Hd Hle]].
   destruct bs as [|b0 bs0].
-  - (* empty payload: no call *)
-    inversion Hstep; subst. simpl. rewrite Hout. simpl. split; [reflexivity|]. split; [|apply cuts_ok_nil].
-    constructor; simpl; auto.
+  - inversion Hdo; subst. exists []. simpl. split; [reflexivity|]. split; [reflexivity|]. split; [|split; [apply cuts_ok_nil|discriminate]].
+    apply (inv_same_disk s0 w); simpl; auto.
     unfold wr_ok. simpl. intros id y Hy. destruct (N.eq_dec wid id) as [->|Hne].
     + rewrite assoc_set_same in Hy. inversion Hy; subst. simpl. exists data. split; auto. lia.
     + rewrite assoc_set_other in Hy by auto. apply (Hwr _ _ Hy).
-  - set (bs := b0 :: bs0) in *.
-    set (o := OWrite false (FData (w_file x)) (flen s (w_file x)) bs) in *.
-    inversion Hstep; subst s' es oc. clear Hstep. simpl. rewrite Hout. simpl.
-    assert (Hg : gop (s_fs s) o).
+  - remember (b0 :: bs0) as bs eqn:Hbs.
+    assert (Hdo' : s1 = set_ws (emit s0 (OWrite false (FData (w_file x)) (flen s0 (w_file x)) bs))
+                     (assoc_set (s_ws s0) wid
+                        (mkWr (w_start x) (w_file x) (w_off x) (w_len x + N.of_nat (length bs)) (w_prev x)
+                              (w_fsize x + N.of_nat (length bs)) (w_mode x))) /\ oc = ROk).
+    { subst bs. simpl in Hdo. inversion Hdo. split; reflexivity. }
+    destruct Hdo' as [-> ->]. clear Hdo.
+    set (o := OWrite false (FData (w_file x)) (flen s0 (w_file x)) bs).
+    assert (Hg : gop (s_fs s0) o).
     { unfold o. rewrite (flen_data _ _ _ Hd). rewrite Hfs in *. simpl in Hd. apply gop_append. exact Hd. }
-    assert (Hgr : grows (s_fs s) (apply (s_fs s) o)) by (apply gop_apply; exact Hg).
-    split; [reflexivity|]. split.
-    + constructor; simpl; auto.
-      * eapply grows_index_ok; eauto.
-      * unfold mem_inr. simpl. intros p Hp. eapply inrb_grows; eauto.
+    exists [o]. simpl. split; [reflexivity|]. split; [reflexivity|]. split.
+    + apply (inv_grown s0 w _ [o]); [exact HI|simpl; auto|repeat constructor; apply wquiet_data_write
+                                     |reflexivity|reflexivity|reflexivity|].
       * unfold wr_ok. simpl. intros id y Hy. destruct (N.eq_dec wid id) as [->|Hne].
         -- rewrite assoc_set_same in Hy. inversion Hy; subst y. simpl.
            unfold o. rewrite (flen_data _ _ _ Hd). rewrite Hfs in *. simpl in Hd. simpl. rewrite Hd.
            rewrite Nat2N.id, write_at_end. rewrite fget_fset_same. eexists. split; [reflexivity|].
-           rewrite app_length, Nat2N.inj_add.
-           change (N.pos (Pos.of_succ_nat (length bs0))) with (N.of_nat (length bs)). lia.
-        -- rewrite assoc_set_other in Hy by auto. eapply wr_ok_grows_one; eauto.
-      * rewrite Hwidx. symmetry. apply grows_widx. exact Hgr.
-    + apply all_same_cuts_ok. apply (gops_all_same [o]); simpl; auto.
+           rewrite app_length, Nat2N.inj_add. lia.
+        -- rewrite assoc_set_other in Hy by auto.
+           eapply wr_ok_grows_one; [apply gop_apply; exact Hg|eauto].
+    + split; [|unfold o; discriminate].
+      apply all_same_cuts_ok. apply (gops_all_same [o]); simpl; auto.
 Qed.
 
 (* ---- acquireWriter *)
@@ -377,64 +464,30 @@ Qed.
 Lemma wquiet_new_file : forall k, Forall wquiet (new_file_ops k).
 Proof. intros k. repeat constructor. Qed.
 
-Lemma inv_grown : forall s w s2 es,
-  Inv s w -> gops (s_fs s) es -> Forall wquiet es ->
-  s_fs s2 = apply_all (s_fs s) es -> s_ptrs s2 = s_ptrs s -> s_head s2 = s_head s -> s_out s2 = [] ->
-  wr_ok s2 -> Inv s2 (fold_left win_step es w).
+Lemma acquire_gops : forall fs es k, (es = [] \/ es = new_file_ops k) -> gops (Some fs) es /\ Forall wquiet es.
 Proof.
-  intros s w s2 es [Hhead Hout Hidx Hmem Hwf Hwr Hwidx] Hg Hq Hfs Hp Hh Ho Hw2.
-  assert (Hgr := gops_grows _ _ Hg).
-  rewrite wquiet_fold by auto.
-  constructor; auto; try congruence.
-  - rewrite Hfs. eapply grows_index_ok; eauto.
-  - unfold mem_inr. rewrite Hfs, Hp. intros p Hin. eapply inrb_grows; eauto.
-  - rewrite Hwidx, Hfs. symmetry. apply grows_widx. auto.
+  intros fs es k [->| ->].
+  - split; [exact I|constructor].
+  - split; [apply gops_new_file|apply wquiet_new_file].
 Qed.
-
-Lemma wr_ok_grown : forall s s2 es,
-  wr_ok s -> gops (s_fs s) es -> s_fs s2 = apply_all (s_fs s) es ->
-  forall id x, assoc (s_ws s) id = Some x ->
-    exists data, dget (s_fs s2) (FData (w_file x)) = Some data /\ (w_off x + w_len x <= N.of_nat (length data))%N.
-Proof.
-  intros s s2 es Hwr Hg Hfs id x Hx. rewrite Hfs.
-  eapply wr_ok_grows_one; [apply gops_grows; eauto|eauto].
-Qed.
-
-Lemma legal_wfile : forall s' id x,
-  forallb (fun iw => fexists s' (FData (w_file (snd iw)))) (s_ws s') = true ->
-  assoc (s_ws s') id = Some x ->
-  exists data, dget (s_fs s') (FData (w_file x)) = Some data.
-Proof.
-  intros s' id x H Hx. apply assoc_in in Hx. rewrite forallb_forall in H.
-  specialize (H _ Hx). simpl in H. unfold fexists in H.
-  destruct (dget (s_fs s') (FData (w_file x))) eqn:E; [eauto|discriminate].
-Qed.
-
-Lemma rev_rev_nil : forall (A : Type) (l : list A), rev (rev l ++ []) = l.
-Proof. intros. rewrite app_nil_r. apply rev_involutive. Qed.
 
 (* ---- DOpenW *)
-Lemma step_openw_good : forall s w wid start md hint, Inv s w -> step_good s w (DOpenW wid start md hint).
+Lemma do_openw_good : forall s0 w wid start md hint s1 oc,
+  Inv s0 w -> do_openw s0 wid start md hint = (s1, oc) -> do_good s0 w (DOpenW wid start md hint) s1 oc.
 Proof.
-  intros s w wid start md hint HI s' es oc Hstep Hleg.
-  pose proof HI as [Hhead Hout Hidx Hmem Hwf Hwr Hwidx].
+  intros s0 w wid start md hint s1 oc HI Hdo Hleg.
+  pose proof HI as [Hhead Hidx Hmem Hwr Hwidx Hnone].
   destruct (legal_post _ _ _ _ Hleg) as [Hwf' Hex'].
   destruct (legal_dir _ _ _ _ Hleg) as [fs [ib [Hfs Hib]]].
-  unfold step in Hstep. rewrite (clear_out_id s Hout) in Hstep.
-  unfold do_openw in Hstep.
-  destruct (snd (usearch (s_ptrs s) (span0 start))).
-  { inversion Hstep; subst. rewrite (clear_out_id s Hout), Hout. simpl.
-    split; [reflexivity|]. split; [exact HI|apply cuts_ok_nil]. }
-  destruct (acquire s hint) as [[s1 k] size] eqn:Ea.
+  unfold do_openw in Hdo.
+  destruct (snd (usearch (s_ptrs s0) (span0 start))).
+  { inversion Hdo; subst. exact (do_good_noop _ _ _ _ HI Hleg). }
+  destruct (acquire s0 hint) as [[sa k] size] eqn:Ea.
   destruct (acquire_spec _ _ _ _ _ Ea) as [Hp [Hh [Hws [Hcap [Hthr [es0 [Hes [Ho [Hf Hsz]]]]]]]]].
-  inversion Hstep; subst s' es oc. clear Hstep.
-  simpl. rewrite Ho, Hout, rev_rev_nil.
-  assert (Hg : gops (s_fs s) es0).
-  { rewrite Hfs. destruct Hes as [->| ->]; [exact I|apply gops_new_file]. }
-  assert (Hq : Forall wquiet es0).
-  { destruct Hes as [->| ->]; [constructor|apply wquiet_new_file]. }
-  split; [exact Hf|]. split.
-  - eapply inv_grown; eauto.
+  inversion Hdo; subst s1 oc. clear Hdo.
+  destruct (acquire_gops fs es0 k Hes) as [Hg Hq]. rewrite <- Hfs in Hg.
+  exists es0. simpl. split; [exact Ho|]. split; [exact Hf|]. split.
+  - apply (inv_grown s0 w _ es0); [exact HI|exact Hg|exact Hq|exact Hf|exact Hp|exact Hh|].
     unfold wr_ok. simpl. intros id y Hy.
     destruct (N.eq_dec wid id) as [->|Hne].
     + rewrite assoc_set_same in Hy. inversion Hy; subst y. simpl.
@@ -444,7 +497,8 @@ Proof.
       unfold flen in Hsz. rewrite Hd in Hsz. lia.
     + rewrite assoc_set_other in Hy by auto. rewrite Hws in Hy.
       eapply wr_ok_grown; eauto.
-  - apply all_same_cuts_ok. apply gops_all_same; auto.
+  - split; [apply all_same_cuts_ok; apply gops_all_same; auto|].
+    destruct Hes as [->| ->]; discriminate.
 Qed.
 
 (* ---- indexPersist.prepare + closure *)
@@ -482,18 +536,18 @@ Proof.
 Qed.
 
 (* the state after a completed index rewrite *)
-Lemma inv_persisted : forall s w s2 fs fs' es,
+Lemma inv_persisted : forall s w s2 fs fs' w',
   Inv s w ->
   s_fs s = Some fs -> s_fs s2 = Some fs' ->
   fget fs' FIndex = Some (encode_ptrs (s_ptrs s2)) ->
   (forall f, f <> FIndex -> fget fs' f = fget fs f) ->
   forallb wf_ptr (s_ptrs s2) = true ->
   (forall p, In p (s_ptrs s2) -> inrb (Some fs) p = true) ->
-  s_head s2 = O -> s_out s2 = [] -> s_ws s2 = s_ws s ->
-  wi_idxlen (fold_left win_step es w) = N.of_nat (length (encode_ptrs (s_ptrs s2))) ->
-  Inv s2 (fold_left win_step es w).
+  s_head s2 = O -> s_ws s2 = s_ws s ->
+  wi_idxlen w' = N.of_nat (length (encode_ptrs (s_ptrs s2))) ->
+  Inv s2 w'.
 Proof.
-  intros s w s2 fs fs' es [Hhead Hout Hidx Hmem Hwf Hwr Hwidx] Hfs Hfs2 Hi Hoth Hwf2 Hin Hh Ho Hws Hwin.
+  intros s w s2 fs fs' w' [Hhead Hidx Hmem Hwr Hwidx Hnone] Hfs Hfs2 Hi Hoth Hwf2 Hin Hh Hws Hwin.
   assert (Hdata : forall p, inrb (Some fs') p = inrb (Some fs) p).
   { intros p. unfold inrb. simpl. rewrite Hoth by discriminate. reflexivity. }
   constructor; auto.
@@ -504,15 +558,42 @@ Proof.
     destruct (Hwr _ _ Hx) as [data [H1 H2]]. rewrite Hfs in H1. simpl in *.
     exists data. rewrite Hoth by discriminate. auto.
   - rewrite Hwin. unfold widx. rewrite Hfs2. simpl. rewrite Hi. reflexivity.
+  - rewrite Hfs2. discriminate.
 Qed.
 
-Lemma inv_same_disk : forall s w s2,
-  Inv s w -> s_fs s2 = s_fs s -> s_ptrs s2 = s_ptrs s -> s_head s2 = s_head s -> s_out s2 = [] ->
-  wr_ok s2 -> Inv s2 w.
+(* persisting the in-memory pointers of a state that satisfies the invariant, from position sd *)
+Lemma persist_step : forall s w sd fs,
+  Inv s w -> s_fs s = Some fs ->
+  forallb wf_ptr (s_ptrs s) = true ->
+  (sd <= length (s_ptrs s))%nat ->
+  firstn sd (disk_ptrs (s_fs s)) = firstn sd (s_ptrs s) ->
+  let es := persist_ops (s_ptrs s) sd in
+  cuts_ok (s_fs s) w es /\
+  Inv (persist s sd) (fold_left win_step es w) /\
+  disk_ptrs (s_fs (persist s sd)) = s_ptrs s.
 Proof.
-  intros s w s2 [Hhead Hout Hidx Hmem Hwf Hwr Hwidx] Hf Hp Hh Ho Hw2.
-  constructor; auto; try congruence.
-  unfold mem_inr. rewrite Hf, Hp. exact Hmem.
+  intros s w sd fs HI Hfs Hwf Hsd Hag es.
+  pose proof HI as [Hhead Hidx Hmem Hwr Hwidx Hnone].
+  rewrite Hfs in Hidx. destruct Hidx as [D [HiD [HwfD HinD]]].
+  rewrite Hfs in Hag. rewrite (index_ok_disk fs D HiD HwfD) in Hag.
+  assert (Hw : wi_idxlen w = N.of_nat (length (encode_ptrs D))).
+  { rewrite Hwidx. unfold widx. rewrite Hfs. simpl. rewrite HiD. reflexivity. }
+  destruct (persist_good fs w D (s_ptrs s) sd HiD Hw Hsd Hag) as [Hc [fs' [Ha [Hi' Hoth]]]].
+  destruct (persist_out s sd) as [Ho [Hf [Hp [Hh [Hws _]]]]].
+  fold es in Ho, Hf, Hc, Ha.
+  rewrite Hfs. split; [exact Hc|]. split.
+  - apply (inv_persisted s w (persist s sd) fs fs' (fold_left win_step es w)).
+    + exact HI.
+    + exact Hfs.
+    + rewrite Hf, Hfs. exact Ha.
+    + rewrite Hp. exact Hi'.
+    + exact Hoth.
+    + rewrite Hp. exact Hwf.
+    + rewrite Hp. intros p Hpin. specialize (Hmem p Hpin). rewrite Hfs in Hmem. exact Hmem.
+    + rewrite Hh. exact Hhead.
+    + exact Hws.
+    + rewrite Hp. apply persist_win_idx. exact Hsd.
+  - rewrite Hf, Hfs, Ha. apply index_ok_disk; auto.
 Qed.
 
 Lemma release_fields : forall s k,
@@ -530,81 +611,838 @@ Proof.
   - rewrite assoc_del_other in Hx by auto. eauto.
 Qed.
 
-Lemma clear_out_fields : forall s,
-  s_fs (clear_out s) = s_fs s /\ s_ptrs (clear_out s) = s_ptrs s /\ s_head (clear_out s) = s_head s /\
-  s_ws (clear_out s) = s_ws s /\ s_out (clear_out s) = [].
-Proof. intros. repeat split; reflexivity. Qed.
-
-(* persisting the in-memory pointers of a state that satisfies the invariant, from position sd *)
-Lemma persist_step : forall s w sd fs,
-  Inv s w -> s_fs s = Some fs ->
-  (sd <= length (s_ptrs s))%nat ->
-  firstn sd (disk_ptrs (s_fs s)) = firstn sd (s_ptrs s) ->
-  let es := persist_ops (s_ptrs s) sd in
-  cuts_ok (s_fs s) w es /\
-  Inv (clear_out (persist s sd)) (fold_left win_step es w) /\
-  s_fs (persist s sd) = apply_all (s_fs s) es /\
-  disk_ptrs (s_fs (persist s sd)) = s_ptrs s.
+(* ---- DCloseW *)
+Lemma do_closew_good : forall s0 w wid s1 oc,
+  Inv s0 w -> do_closew s0 wid = (s1, oc) -> do_good s0 w (DCloseW wid) s1 oc.
 Proof.
-  intros s w sd fs HI Hfs Hsd Hag es.
-  pose proof HI as [Hhead Hout Hidx Hmem Hwf Hwr Hwidx].
-  rewrite Hfs in Hidx. destruct Hidx as [D [HiD [HwfD HinD]]].
-  rewrite Hfs in Hag. rewrite (index_ok_disk fs D HiD HwfD) in Hag.
-  assert (Hw : wi_idxlen w = N.of_nat (length (encode_ptrs D))).
-  { rewrite Hwidx. unfold widx. rewrite Hfs. simpl. rewrite HiD. reflexivity. }
-  destruct (persist_good fs w D (s_ptrs s) sd HiD Hw Hsd Hag) as [Hc [fs' [Ha [Hi' Hoth]]]].
-  destruct (persist_out s sd) as [Ho [Hf [Hp [Hh [Hws _]]]]].
-  fold es in Ho, Hf, Hc, Ha.
-  rewrite Hfs. split; [exact Hc|]. split; [|split].
-  - destruct (clear_out_fields (persist s sd)) as [C1 [C2 [C3 [C4 C5]]]].
-    apply (inv_persisted s w (clear_out (persist s sd)) fs fs' es).
-    + exact HI.
-    + exact Hfs.
-    + rewrite C1, Hf, Hfs. exact Ha.
-    + rewrite C2, Hp. exact Hi'.
-    + exact Hoth.
-    + rewrite C2, Hp. exact Hwf.
-    + rewrite C2, Hp. intros p Hpin. specialize (Hmem p Hpin). rewrite Hfs in Hmem. exact Hmem.
-    + rewrite C3, Hh. exact Hhead.
-    + exact C5.
-    + rewrite C4. exact Hws.
-    + rewrite C2, Hp. apply persist_win_idx. exact Hsd.
-  - rewrite <- Hfs. exact Hf.
-  - rewrite Hf, Hfs, Ha. apply index_ok_disk; auto.
+  intros s0 w wid s1 oc HI Hdo Hleg.
+  pose proof HI as [Hhead Hidx Hmem Hwr Hwidx Hnone].
+  destruct (legal_dir _ _ _ _ Hleg) as [fs [ib [Hfs Hib]]].
+  unfold do_closew in Hdo.
+  destruct (assoc (s_ws s0) wid) as [x|] eqn:Ex.
+  2:{ inversion Hdo; subst. exact (do_good_noop _ _ _ _ HI Hleg). }
+  destruct (release_fields s0 (w_file x)) as [Rf [Ro [Rp [Rh [Rw _]]]]].
+  remember (set_ws (release s0 (w_file x)) (assoc_del (s_ws s0) wid)) as sa eqn:Hsa.
+  assert (Hf1 : s_fs sa = s_fs s0) by (subst sa; simpl; congruence).
+  assert (Hp1 : s_ptrs sa = s_ptrs s0) by (subst sa; simpl; congruence).
+  assert (Hh1 : s_head sa = O) by (subst sa; simpl; congruence).
+  assert (Ho1 : s_out sa = s_out s0) by (subst sa; simpl; congruence).
+  assert (Hw1 : s_ws sa = assoc_del (s_ws s0) wid) by (subst sa; reflexivity).
+  assert (HI1 : Inv sa w).
+  { apply (inv_same_disk s0 w sa HI); try congruence.
+    apply (wr_ok_del s0 _ wid Hwr); congruence. }
+  assert (Hfs1 : s_fs sa = Some fs) by congruence.
+  rewrite Hh1 in Hdo.
+  assert (Hnop : (sa, ROk) = (s1, oc) -> do_good s0 w (DCloseW wid) s1 oc).
+  { intros E. inversion E; subst s1 oc. intros _. exists []. simpl.
+    split; [exact Ho1|]. split; [exact Hf1|]. split; [exact HI1|].
+    split; [apply cuts_ok_nil|discriminate]. }
+  destruct (w_mode x); [exact (Hnop Hdo Hleg)| |exact (Hnop Hdo Hleg)].
+  (* lazily persisted writer: Close persists the index *)
+  inversion Hdo; subst s1 oc. clear Hdo.
+  assert (Hwfa : forallb wf_ptr (s_ptrs sa) = true).
+  { destruct (legal_post _ _ _ _ Hleg) as [Hwf' _].
+    simpl in Hwf'. exact Hwf'. }
+  destruct (persist_step sa w O fs HI1 Hfs1 Hwfa ltac:(lia) eq_refl) as [Hc [HI2 Hdk]].
+  destruct (persist_out sa O) as [Ho2 [Hf2 [Hp2 _]]].
+  exists (persist_ops (s_ptrs sa) 0).
+  split; [rewrite Ho2, Ho1; reflexivity|].
+  split; [rewrite Hf2, Hf1; reflexivity|].
+  split; [exact HI2|]. split; [rewrite <- Hf1; exact Hc|].
+  intros _. rewrite Hp2. exact Hdk.
 Qed.
 
-(* ---- DCloseW *)
-Lemma step_closew_good : forall s w wid, Inv s w -> step_good s w (DCloseW wid).
+(* ---- index.insert / index.update only add the new pointer *)
+Lemma in_firstn : forall (A : Type) (l : list A) i q, In q (firstn i l) -> In q l.
 Proof.
-  intros s w wid HI s' es oc Hstep Hleg.
-  pose proof HI as [Hhead Hout Hidx Hmem Hwf Hwr Hwidx].
+  induction l as [|a l IH]; intros i q H; destruct i; simpl in *; try contradiction.
+  destruct H; [left; auto|right; eauto].
+Qed.
+
+Lemma in_skipn : forall (A : Type) (l : list A) i q, In q (skipn i l) -> In q l.
+Proof.
+  induction l as [|a l IH]; intros i q H; destruct i; simpl in *; try contradiction; auto.
+  right. eauto.
+Qed.
+
+Lemma in_splice : forall (A : Type) (l : list A) i j x q,
+  In q (firstn i l ++ x :: skipn j l) -> q = x \/ In q l.
+Proof.
+  intros A l i j x q H. apply in_app_or in H. destruct H as [H|[H|H]].
+  - right. eapply in_firstn; eauto.
+  - left. auto.
+  - right. eapply in_skipn; eauto.
+Qed.
+
+Lemma idx_insert_in : forall ps p ps' at_ q,
+  idx_insert ps p = (ROk, ps', at_) -> In q ps' -> q = p \/ In q ps.
+Proof.
+  intros ps p ps' at_ q H Hq. unfold idx_insert in H.
+  destruct (N.eqb (p_file p) 0); [discriminate|].
+  destruct ps as [|f r]; [inversion H; subst; simpl in Hq; destruct Hq; [left; auto|contradiction]|].
+  destruct (p_e (last (f :: r) f) <? p_s p)%Z.
+  { inversion H; subst. change (f :: r ++ [p]) with ((f :: r) ++ [p]) in Hq.
+    apply in_app_or in Hq. destruct Hq as [Hq|[Hq|[]]]; auto. }
+  destruct (negb (p_e p <? p_s f)%Z).
+  - destruct (usearch (f :: r) (ptr_tr p)) as [i ov]. destruct ov; [discriminate|].
+    inversion H; subst. unfold insert_at in Hq. eapply in_splice; eauto.
+  - inversion H; subst. simpl in Hq. destruct Hq; auto.
+Qed.
+
+Lemma idx_update_in : forall ps p ps' at_ q,
+  idx_update ps p = (ROk, ps', at_) -> In q ps' -> q = p \/ In q ps.
+Proof.
+  intros ps p ps' at_ q H Hq. unfold idx_update in H.
+  destruct ps as [|f r]; [discriminate|].
+  destruct (getp (f :: r) _) as [oldp|]; [|discriminate].
+  destruct (negb (p_s oldp =? p_s p)%Z); [discriminate|].
+  destruct (_ || _); [discriminate|].
+  inversion H; subst. unfold replace_at in Hq. eapply in_splice; eauto.
+Qed.
+
+Lemma u32_le : forall n, (u32 n <= n)%N.
+Proof. intros. unfold u32. apply N.mod_le. discriminate. Qed.
+
+(* ---- DCommit *)
+(* the tail of commit: keep the file (a), or roll over to another file (b) *)
+Lemma commit_keep : forall t w wid x x',
+  Inv t w -> assoc (s_ws t) wid = Some x ->
+  w_file x' = w_file x -> w_off x' = w_off x -> w_len x' = w_len x ->
+  Inv (set_ws t (assoc_set (s_ws t) wid x')) w.
+Proof.
+  intros t w wid x x' HI Hx Hf Ho Hl.
+  apply (inv_same_disk t w); simpl; auto.
+  destruct HI as [_ _ _ Hwr _ _].
+  unfold wr_ok. simpl. intros id y Hy. destruct (N.eq_dec wid id) as [->|Hne].
+  - rewrite assoc_set_same in Hy. inversion Hy; subst y. rewrite Hf, Ho, Hl. eauto.
+  - rewrite assoc_set_other in Hy by auto. eauto.
+Qed.
+
+Lemma commit_roll : forall t w wid x e hint s4 k size md fs,
+  Inv t w -> s_fs t = Some fs -> assoc (s_ws t) wid = Some x ->
+  acquire (release t (w_file x)) hint = (s4, k, size) ->
+  let fin := set_ws s4 (assoc_set (s_ws s4) wid (mkWr e k size 0 0 size md)) in
+  forallb (fun iw => fexists fin (FData (w_file (snd iw)))) (s_ws fin) = true ->
+  exists es0, s_out fin = rev es0 ++ s_out t /\ s_fs fin = apply_all (s_fs t) es0 /\
+              Inv fin (fold_left win_step es0 w) /\ all_same (s_fs t) es0 /\ s_ptrs fin = s_ptrs t /\
+              idx_written es0 = false /\ disk_ptrs (s_fs fin) = disk_ptrs (s_fs t).
+Proof.
+  intros t w wid x e hint s4 k size md fs HI Hfs Hx Ea fin Hex.
+  destruct (release_fields t (w_file x)) as [Rf [Ro [Rp [Rh [Rw _]]]]].
+  destruct (acquire_spec _ _ _ _ _ Ea) as [Hp [Hh [Hws [_ [_ [es0 [Hes [Ho [Hf Hsz]]]]]]]]].
+  destruct (acquire_gops fs es0 k Hes) as [Hg Hq]. rewrite <- Hfs in Hg.
+  pose proof HI as [Hhead Hidx Hmem Hwr Hwidx Hnone].
+  exists es0. unfold fin. simpl.
+  split; [rewrite Ho, Ro; reflexivity|].
+  split; [rewrite Hf, Rf; reflexivity|].
+  split; [|split].
+  - apply (inv_grown t w _ es0); simpl; try congruence.
+    unfold wr_ok. simpl. intros id y Hy.
+    destruct (N.eq_dec wid id) as [->|Hne].
+    + rewrite assoc_set_same in Hy. inversion Hy; subst y. simpl.
+      destruct (legal_wfile fin id _ Hex ltac:(unfold fin; simpl; apply assoc_set_same)) as [data Hd].
+      unfold fin in Hd. simpl in Hd. exists data. split; auto.
+      unfold flen in Hsz. rewrite Hd in Hsz. lia.
+    + rewrite assoc_set_other in Hy by auto. rewrite Hws, Rw in Hy.
+      eapply wr_ok_grown; eauto. congruence.
+  - apply gops_all_same; auto.
+  - split; [congruence|]. split; [destruct Hes as [->| ->]; reflexivity|].
+    rewrite Hf, Rf. apply grows_disk_ptrs. apply gops_grows. exact Hg.
+Qed.
+
+Lemma do_commit_good : forall s0 w wid e hint s1 oc,
+  Inv s0 w -> do_commit s0 wid e hint = (s1, oc) -> do_good s0 w (DCommit wid e hint) s1 oc.
+Proof.
+  intros s0 w wid e hint s1 oc HI Hdo Hleg.
+  pose proof HI as [Hhead Hidx Hmem Hwr Hwidx Hnone].
+  destruct (legal_post _ _ _ _ Hleg) as [Hwf' Hex'].
   destruct (legal_dir _ _ _ _ Hleg) as [fs [ib [Hfs Hib]]].
-  unfold step in Hstep. rewrite (clear_out_id s Hout) in Hstep.
-  unfold do_closew in Hstep.
-  destruct (assoc (s_ws s) wid) as [x|] eqn:Ex.
-  2:{ inversion Hstep; subst. rewrite (clear_out_id s Hout), Hout. simpl.
-      split; [reflexivity|]. split; [exact HI|apply cuts_ok_nil]. }
-  set (s1 := set_ws (release s (w_file x)) (assoc_del (s_ws s) wid)) in *.
-  destruct (release_fields s (w_file x)) as [Rf [Ro [Rp [Rh [Rw _]]]]].
-  assert (HI1 : Inv s1 w).
-  { apply (inv_same_disk s w s1 HI); unfold s1; simpl; try congruence.
-    apply (wr_ok_del s _ wid Hwr); simpl; congruence. }
-  assert (Hfs1 : s_fs s1 = Some fs) by (unfold s1; simpl; congruence).
-  destruct (w_mode x).
-  - (* always-persist writer: nothing to flush *)
-    inversion Hstep; subst s' es oc. simpl. rewrite Ro, Hout. simpl.
-    split; [exact Rf|]. split; [|apply cuts_ok_nil].
-    rewrite <- (clear_out_id s1) in HI1 by (simpl; congruence). exact HI1.
-  - (* lazily persisted writer: Close persists the index *)
-    inversion Hstep; subst s' es oc. clear Hstep.
-    assert (Hh1 : s_head s1 = O) by (unfold s1; simpl; congruence).
-    rewrite Hh1.
-    destruct (persist_step s1 w O fs HI1 Hfs1 ltac:(lia) eq_refl) as [Hc [HI2 [Hf2 _]]].
-    destruct (persist_out s1 O) as [Ho2 _].
-    rewrite Ho2. simpl s_out. rewrite Ro, Hout, rev_rev_nil.
-    replace (s_fs s) with (s_fs s1) by (simpl; congruence).
-    split; [exact Hf2|]. split; [exact HI2|exact Hc].
-  - inversion Hstep; subst s' es oc. simpl. rewrite Ro, Hout. simpl.
-    split; [exact Rf|]. split; [|apply cuts_ok_nil].
-    rewrite <- (clear_out_id s1) in HI1 by (simpl; congruence). exact HI1.
+  unfold do_commit in Hdo.
+  destruct (assoc (s_ws s0) wid) as [x|] eqn:Ex.
+  2:{ inversion Hdo; subst. exact (do_good_noop _ _ _ _ HI Hleg). }
+  destruct (N.eqb (w_len x) 0).
+  { inversion Hdo; subst. exact (do_good_noop _ _ _ _ HI Hleg). }
+  destruct (negb (w_prev x =? 0)%Z && negb (N.leb (real_cap s0) (w_fsize x)) && (e <? w_prev x)%Z).
+  { inversion Hdo; subst. exact (do_good_noop _ _ _ _ HI Hleg). }
+  destruct (negb (w_start x <? e)%Z).
+  { inversion Hdo; subst. exact (do_good_noop _ _ _ _ HI Hleg). }
+  remember (mkPtr (w_start x) e (w_file x) (u32 (w_off x)) (u32 (w_len x))) as p eqn:Hp.
+  destruct (if (w_prev x =? 0)%Z then idx_insert (s_ptrs s0) p else idx_update (s_ptrs s0) p)
+    as [[r ps] at_] eqn:Eidx.
+  destruct r; try (inversion Hdo; subst; exact (do_good_noop _ _ _ _ HI Hleg)).
+  (* the pointer list gained (at most) the new pointer, which lies inside the writer's file *)
+  assert (Hin : forall q, In q ps -> q = p \/ In q (s_ptrs s0)).
+  { intros q Hq. destruct (w_prev x =? 0)%Z; [eapply idx_insert_in|eapply idx_update_in]; eauto. }
+  assert (Hpin : inrb (s_fs s0) p = true).
+  { destruct (Hwr _ _ Ex) as [data [Hd Hle]]. unfold inrb. subst p. simpl. rewrite Hd.
+    apply N.leb_le. pose proof (u32_le (w_off x)). pose proof (u32_le (w_len x)). lia. }
+  remember (set_head (set_ptrs s0 ps) (Nat.min (s_head s0) at_)) as sa eqn:Hsa.
+  assert (Hfa : s_fs sa = s_fs s0) by (subst sa; reflexivity).
+  assert (Hoa : s_out sa = s_out s0) by (subst sa; reflexivity).
+  assert (Hpa : s_ptrs sa = ps) by (subst sa; reflexivity).
+  assert (Hwa : s_ws sa = s_ws s0) by (subst sa; reflexivity).
+  assert (Hha : s_head sa = O) by (subst sa; simpl; rewrite Hhead; reflexivity).
+  assert (HIa : Inv sa w).
+  { constructor; auto; try congruence.
+    - unfold mem_inr. rewrite Hfa, Hpa. intros q Hq. destruct (Hin q Hq) as [->|Hq']; auto.
+    - unfold wr_ok. rewrite Hfa, Hwa. exact Hwr. }
+  assert (Hfsa : s_fs sa = Some fs) by congruence.
+  assert (Exa : assoc (s_ws sa) wid = Some x) by congruence.
+  rewrite Hha in Hdo.
+  (* persist or not *)
+  assert (Hmid : exists sb es2,
+            (match w_mode x with MLazy => sa | _ => persist sa 0 end) = sb /\
+            s_out sb = rev es2 ++ s_out s0 /\ s_fs sb = apply_all (s_fs s0) es2 /\
+            s_ptrs sb = ps /\ s_ws sb = s_ws s0 /\
+            (forallb wf_ptr ps = true -> Inv sb (fold_left win_step es2 w) /\ cuts_ok (s_fs s0) w es2 /\
+                                          (idx_written es2 = true -> disk_ptrs (s_fs sb) = ps))).
+  { destruct (persist_out sa O) as [Ho2 [Hf2 [Hp2 [_ [Hw2 _]]]]].
+    assert (Hper : exists sb es2, persist sa 0 = sb /\
+            s_out sb = rev es2 ++ s_out s0 /\ s_fs sb = apply_all (s_fs s0) es2 /\
+            s_ptrs sb = ps /\ s_ws sb = s_ws s0 /\
+            (forallb wf_ptr ps = true -> Inv sb (fold_left win_step es2 w) /\ cuts_ok (s_fs s0) w es2 /\
+                                          (idx_written es2 = true -> disk_ptrs (s_fs sb) = ps))).
+    { exists (persist sa 0), (persist_ops (s_ptrs sa) 0).
+      split; [reflexivity|]. split; [congruence|]. split; [congruence|]. split; [congruence|].
+      split; [congruence|]. intros Hwfps.
+      destruct (persist_step sa w O fs HIa Hfsa ltac:(congruence) ltac:(lia) eq_refl) as [Hc [HI2 Hdk]].
+      split; [exact HI2|]. split; [rewrite <- Hfa; exact Hc|]. intros _. congruence. }
+    destruct (w_mode x); try exact Hper.
+    exists sa, []. simpl.
+    split; [reflexivity|]. split; [exact Hoa|]. split; [exact Hfa|]. split; [exact Hpa|].
+    split; [exact Hwa|]. intros _. split; [exact HIa|]. split; [apply cuts_ok_nil|discriminate]. }
+  destruct Hmid as [sb [es2 [Esb [Hob [Hfb [Hpb [Hwb Hgood]]]]]]].
+  rewrite Esb in Hdo.
+  assert (Exb : assoc (s_ws sb) wid = Some x) by congruence.
+  destruct (N.leb (real_cap s0) (w_fsize x)).
+  - (* rollover: release, acquire another file *)
+    destruct (acquire (release sb (w_file x)) hint) as [[s4 k] size] eqn:Ea.
+    inversion Hdo; subst s1 oc. clear Hdo.
+    assert (Hfsb : exists fsb, s_fs sb = Some fsb).
+    { destruct (w_mode x); subst sb; try (destruct (persist_out sa O) as [_ [Hf2 _]]; rewrite Hf2, Hfsa;
+        unfold persist_ops, apply_all; simpl; eauto); eauto. }
+    destruct Hfsb as [fsb Hfsb].
+    assert (Hwfps : forallb wf_ptr ps = true).
+    { destruct (acquire_spec _ _ _ _ _ Ea) as [Hp4 _].
+      destruct (release_fields sb (w_file x)) as [_ [_ [Rp _]]].
+      simpl in Hwf'. rewrite Hp4, Rp, Hpb in Hwf'. exact Hwf'. }
+    destruct (Hgood Hwfps) as [HIb [Hcb Hsy]].
+    destruct (commit_roll sb _ wid x e hint s4 k size (w_mode x) fsb HIb Hfsb Exb Ea Hex')
+      as [es0 [Ho0 [Hf0 [HI0 [Hsame [Hp0 [Hnw Hd0]]]]]]].
+    exists (es2 ++ es0).
+    split; [rewrite Ho0, Hob, rev_app_distr, app_assoc; reflexivity|].
+    split; [rewrite Hf0, Hfb, apply_all_app; reflexivity|].
+    split; [rewrite fold_left_app; exact HI0|].
+    split.
+    { apply cuts_ok_app; auto.
+      + apply all_same_cuts_ok. rewrite <- Hfb. exact Hsame.
+      + right. rewrite <- Hfb. apply all_same_end. exact Hsame. }
+    rewrite idx_written_app, Hnw, orb_false_r. intros Hiw.
+    rewrite Hd0, Hp0, Hpb. apply Hsy. exact Hiw.
+  - inversion Hdo; subst s1 oc. clear Hdo.
+    assert (Hwfps : forallb wf_ptr ps = true).
+    { simpl in Hwf'. rewrite Hpb in Hwf'. exact Hwf'. }
+    destruct (Hgood Hwfps) as [HIb [Hcb Hsy]].
+    exists es2. simpl.
+    split; [exact Hob|]. split; [exact Hfb|]. split; [eapply commit_keep; eauto|].
+    split; [exact Hcb|]. intros Hiw. rewrite Hpb. apply Hsy. exact Hiw.
+Qed.
+
+(* ---- DDelete *)
+Lemma getp_lt : forall ps i p, getp ps i = Some p -> (0 <= i)%Z /\ (Z.to_nat i < length ps)%nat.
+Proof.
+  intros ps i p H. unfold getp in H. destruct (Z.ltb_spec i 0); [discriminate|].
+  split; auto. apply nth_error_Some. congruence.
+Qed.
+
+Lemma ptr_eqb_eq : forall a b, ptr_eqb a b = true -> a = b.
+Proof.
+  intros [s1 e1 f1 o1 z1] [s2 e2 f2 o2 z2] H. unfold ptr_eqb in H. simpl in H.
+  repeat (apply andb_true_iff in H; destruct H as [H ?]).
+  apply Z.eqb_eq in H. apply Z.eqb_eq in H3. apply N.eqb_eq in H2, H1, H0. subst. reflexivity.
+Qed.
+
+Lemma list_beq_eq : forall a b, list_beq ptr ptr_eqb a b = true -> a = b.
+Proof.
+  induction a as [|x a IH]; intros [|y b] H; simpl in H; try discriminate; auto.
+  apply andb_true_iff in H. destruct H as [H1 H2]. f_equal; [apply ptr_eqb_eq|apply IH]; auto.
+Qed.
+
+(* a delete either changes nothing, or persists a list that agrees with the old one before
+   the position it persists from *)
+Lemma do_delete_shape : forall s a b res s1 oc,
+  do_delete s a b res = (s1, oc) ->
+  s1 = s \/
+  exists ps', s1 = persist (set_ptrs s ps') (delete_start s a) /\
+              firstn (delete_start s a) ps' = firstn (delete_start s a) (s_ptrs s) /\
+              (delete_start s a <= length ps')%nat.
+Proof.
+  intros s a b res s1 oc H. unfold do_delete in H. unfold delete_start.
+  destruct (usearch (s_ptrs s) (span0 a)) as [i exact] eqn:Eu.
+  match type of H with (let '(_, _) := _ in _) = _ => idtac | _ => idtac end.
+  set (ps := s_ptrs s) in *.
+  match type of H with
+  | context [match ?sr with Some _ => _ | None => _ end] =>
+      destruct sr as [[[[sd startp] so] a']|] eqn:Esr
+  end.
+  2:{ left. inversion H; reflexivity. }
+  assert (Hsd : sd = (if exact then i else i + 1)%Z /\ getp ps sd = Some startp).
+  { destruct exact.
+    - destruct (getp ps i) as [p0|] eqn:Eg; [|discriminate].
+      destruct (zassoc res (p_s p0)) as [[[[so0 a0] e0] b0]|]; [|discriminate].
+      inversion Esr; subst. auto.
+    - destruct (i + 1 =? zlen ps)%Z; [discriminate|].
+      destruct (getp ps (i + 1)) as [p0|] eqn:Eg; [|discriminate].
+      inversion Esr; subst. auto. }
+  destruct Hsd as [Hsd Hgs]. destruct (getp_lt _ _ _ Hgs) as [Hsd0 Hsdlt].
+  destruct (usearch ps (span0 b)) as [j exact2] eqn:Eu2.
+  match type of H with
+  | context [match ?er with Some _ => _ | None => _ end] =>
+      destruct er as [[[[ed endp] eo] b']|] eqn:Eer
+  end.
+  2:{ left. inversion H; reflexivity. }
+  destruct (validate_delete sd ed so eo ps) as [[[go err] so'] eo'] eqn:Ev.
+  destruct err; [left; inversion H; reflexivity|].
+  destruct go; simpl in H; [|left; inversion H; reflexivity].
+  right. rewrite <- Hsd.
+  eexists. split; [inversion H; reflexivity|].
+  set (kept := firstn (Z.to_nat sd) ps ++ skipn (Z.to_nat (ed + 1)) ps).
+  assert (Hk : firstn (Z.to_nat sd) kept = firstn (Z.to_nat sd) ps).
+  { unfold kept. rewrite firstn_app. rewrite firstn_length.
+    replace (Z.to_nat sd - Nat.min (Z.to_nat sd) (length ps))%nat with 0%nat by lia.
+    simpl. rewrite app_nil_r. apply firstn_firstn_le. lia. }
+  assert (Hkl : length (firstn (Z.to_nat sd) kept) = Z.to_nat sd).
+  { rewrite Hk, firstn_length. lia. }
+  split.
+  - rewrite firstn_app. rewrite Hkl, Nat.sub_diag. simpl. rewrite app_nil_r.
+    rewrite firstn_firstn_le by lia. exact Hk.
+  - rewrite app_length, Hkl. lia.
+Qed.
+
+Lemma do_delete_good : forall s0 w a b res s1 oc,
+  Inv s0 w -> do_delete s0 a b res = (s1, oc) -> do_good s0 w (DDelete a b res) s1 oc.
+Proof.
+  intros s0 w a b res s1 oc HI Hdo Hleg.
+  destruct (do_delete_shape _ _ _ _ _ _ Hdo) as [->|[ps' [-> [Hag Hlen]]]].
+  { exact (do_good_noop _ _ _ _ HI Hleg). }
+  pose proof HI as [Hhead Hidx Hmem Hwr Hwidx Hnone].
+  destruct (legal_post _ _ _ _ Hleg) as [Hwf' _].
+  destruct (legal_dir _ _ _ _ Hleg) as [fs [ib [Hfs Hib]]].
+  assert (Hl2 : list_beq ptr ptr_eqb (firstn (delete_start s0 a) (disk_ptrs (s_fs s0)))
+                                      (firstn (delete_start s0 a) (s_ptrs s0)) = true /\
+                forallb (inrb (s_fs (clear_out (persist (set_ptrs s0 ps') (delete_start s0 a)))))
+                        (s_ptrs (clear_out (persist (set_ptrs s0 ps') (delete_start s0 a)))) = true).
+  { unfold legal_step in Hleg. rewrite Hfs, Hib in Hleg.
+    apply andb_true_iff in Hleg. destruct Hleg as [_ Hlast].
+    apply andb_true_iff in Hlast. rewrite Hfs. exact Hlast. }
+  destruct Hl2 as [Hpre Hinr]. apply list_beq_eq in Hpre.
+  set (n := delete_start s0 a) in *.
+  remember (set_ptrs s0 ps') as sa eqn:Hsa.
+  assert (Hfa : s_fs sa = s_fs s0) by (subst sa; reflexivity).
+  assert (Hoa : s_out sa = s_out s0) by (subst sa; reflexivity).
+  assert (Hpa : s_ptrs sa = ps') by (subst sa; reflexivity).
+  assert (Hwa : s_ws sa = s_ws s0) by (subst sa; reflexivity).
+  assert (Hha : s_head sa = O) by (subst sa; simpl; exact Hhead).
+  destruct (persist_out sa n) as [Ho2 [Hf2 [Hp2 _]]].
+  assert (Hwfps : forallb wf_ptr ps' = true).
+  { simpl in Hwf'. congruence. }
+  (* the data files are untouched by the index rewrite, so the post-condition on the final
+     state gives the new pointers' ranges in the starting directory *)
+  assert (Hrange : forall q, In q ps' -> inrb (s_fs s0) q = true).
+  { intros q Hq.
+    change (s_fs (clear_out (persist sa n))) with (s_fs (persist sa n)) in Hinr.
+    change (s_ptrs (clear_out (persist sa n))) with (s_ptrs (persist sa n)) in Hinr.
+    rewrite Hp2, Hpa in Hinr. rewrite forallb_forall in Hinr. specialize (Hinr q Hq).
+    rewrite Hf2, Hfa, Hfs in Hinr. rewrite Hfs.
+    rewrite Hfs in Hidx. destruct Hidx as [D [HiD [HwfD _]]].
+    assert (Hb : firstn (26 * n) (encode_ptrs D) = encode_ptrs (firstn n (s_ptrs sa))).
+    { rewrite firstn_encode. f_equal. rewrite Hpa, Hag, <- Hpre, Hfs.
+      rewrite (index_ok_disk fs D HiD HwfD). reflexivity. }
+    destruct (persist_view fs _ (s_ptrs sa) n HiD ltac:(rewrite Hpa; exact Hlen) Hb) as [fs' [Ha [_ Hoth]]].
+    rewrite Ha in Hinr. unfold inrb in *. simpl in *. rewrite Hoth in Hinr by discriminate. exact Hinr. }
+  assert (HIa : Inv sa w).
+  { constructor; auto; try congruence.
+    - unfold mem_inr. rewrite Hfa, Hpa. exact Hrange.
+    - unfold wr_ok. rewrite Hfa, Hwa. exact Hwr. }
+  assert (Hfsa : s_fs sa = Some fs) by congruence.
+  destruct (persist_step sa w n fs HIa Hfsa ltac:(congruence) ltac:(rewrite Hpa; exact Hlen)
+              ltac:(rewrite Hfa, Hpa, Hag; exact Hpre)) as [Hc [HI2 Hdk]].
+  exists (persist_ops (s_ptrs sa) n).
+  split; [rewrite Ho2, Hoa; reflexivity|].
+  split; [rewrite Hf2, Hfa; reflexivity|].
+  split; [exact HI2|]. split; [rewrite <- Hfa; exact Hc|].
+  intros _. rewrite Hp2. exact Hdk.
+Qed.
+
+(* ---- DCreate *)
+Definition create_ops (meta : bytes) : list fsop :=
+  [OMkdir; OCreate FMetaTmp; OWrite false FMetaTmp 0 meta; ORename FMetaTmp FMeta; OCreate FIndex; OCreate FCounter].
+
+Lemma legal_create : forall s meta s' oc, legal_step s (DCreate meta) s' oc = true -> s_fs s = None /\ s_ws s = [].
+Proof. intros. exact (legal_dir _ _ _ _ H). Qed.
+
+Lemma win_class_dir_nometa : forall i t g r, win_class (mkWin true false i t g r) = 1%nat.
+Proof. reflexivity. Qed.
+
+Lemma do_create_good : forall s0 w meta s1 oc,
+  Inv s0 w -> do_create s0 meta = (s1, oc) -> do_good s0 w (DCreate meta) s1 oc.
+Proof.
+  intros s0 w meta s1 oc HI Hdo Hleg.
+  destruct (legal_create _ _ _ _ Hleg) as [Hfs Hws].
+  pose proof HI as [Hhead Hidx Hmem Hwr Hwidx Hnone].
+  specialize (Hnone Hfs).
+  destruct s0 as [fs out ps hd c o u ws cap thr]. simpl in *. subst fs ws ps hd.
+  unfold do_create in Hdo. simpl in Hdo. inversion Hdo; subst s1 oc. clear Hdo.
+  exists (create_ops meta). simpl.
+  split; [reflexivity|]. split; [reflexivity|]. split; [|split; [|discriminate]].
+  - constructor; simpl; auto; try discriminate; try (intros p []);
+      try (exists []; simpl; repeat split; auto; intros p []).
+  - intros m t Hm Ht Hc. unfold create_ops in *. simpl in Hm.
+    destruct m as [|[|[|[|[|[|[|m]]]]]]]; try lia.
+    + destruct Ht as [->|[o' [H1 H2]]]; [left; reflexivity|].
+      simpl in H1. inversion H1; subst o'. simpl in H2. lia.
+    + exfalso. unfold win_from in Hc. simpl in Hc.
+      destruct t; simpl in Hc; discriminate.
+    + exfalso. unfold win_from in Hc. simpl in Hc.
+      destruct t; simpl in Hc; discriminate.
+    + exfalso. unfold win_from in Hc. simpl in Hc.
+      destruct t; simpl in Hc; discriminate.
+    + right. destruct Ht as [->|[o' [H1 H2]]]; [reflexivity|].
+      simpl in H1. inversion H1; subst o'. simpl in H2. lia.
+    + right. destruct Ht as [->|[o' [H1 H2]]]; [reflexivity|].
+      simpl in H1. inversion H1; subst o'. simpl in H2. lia.
+    + right. destruct Ht as [->|[o' [H1 H2]]]; [reflexivity|].
+      simpl in H1. discriminate.
+Qed.
+
+(* ---- DDelChan *)
+Lemma do_delchan_good : forall s0 w s1 oc,
+  Inv s0 w -> do_delchan s0 = (s1, oc) -> do_good s0 w DDelChan s1 oc.
+Proof.
+  intros s0 w s1 oc HI Hdo Hleg.
+  destruct (legal_dir _ _ _ _ Hleg) as [fs [ib [Hfs Hib]]].
+  unfold do_delchan in Hdo. inversion Hdo; subst s1 oc. clear Hdo.
+  exists [ORenameDir; ORemoveDir]. simpl.
+  split; [reflexivity|]. split; [reflexivity|]. split; [|split; [|discriminate]].
+  - rewrite Hfs. simpl. constructor; simpl; auto.
+    + intros p [].
+    + intros id x Hx. discriminate.
+  - intros m t Hm Ht Hc. simpl in Hm. rewrite Hfs.
+    destruct m as [|[|[|m]]]; try lia.
+    + destruct Ht as [->|[o' [H1 H2]]]; [left; reflexivity|].
+      simpl in H1. inversion H1; subst o'. simpl in H2. lia.
+    + right. destruct Ht as [->|[o' [H1 H2]]]; [reflexivity|].
+      simpl in H1. inversion H1; subst o'. simpl in H2. lia.
+    + right. destruct Ht as [->|[o' [H1 H2]]]; [reflexivity|].
+      simpl in H1. discriminate.
+Qed.
+
+(* ---- DReopen: a clean restart loads exactly what is on disk *)
+Lemma recover_spec : forall cap thr fs ib,
+  fget fs FIndex = Some ib ->
+  let r := recover cap thr (Some fs) in
+  s_ptrs r = decode_ptrs ib /\ s_head r = O /\ s_ws r = [] /\
+  ((s_out r = [] /\ s_fs r = Some fs) \/
+   (s_out r = [OCreate FCounter] /\ s_fs r = apply (Some fs) (OCreate FCounter))).
+Proof.
+  intros cap thr fs ib Hib r. subst r. unfold recover, fresh, fexists. simpl. rewrite Hib. simpl.
+  rewrite Hib. destruct (fget fs FCounter) eqn:Ec; simpl.
+  - repeat split; auto.
+  - split; [reflexivity|]. split; [reflexivity|]. split; [reflexivity|].
+    right. rewrite Ec. split; reflexivity.
+Qed.
+
+Lemma do_reopen_good : forall s0 w s1 oc,
+  Inv s0 w -> do_reopen s0 = (s1, oc) -> do_good s0 w DReopen s1 oc.
+Proof.
+  intros s0 w s1 oc HI Hdo Hleg.
+  pose proof HI as [Hhead Hidx Hmem Hwr Hwidx Hnone].
+  destruct (legal_dir _ _ _ _ Hleg) as [fs [ib [Hfs Hib]]].
+  unfold do_reopen in Hdo.
+  destruct (s_ws s0) eqn:Ews.
+  2:{ inversion Hdo; subst. exact (do_good_noop _ _ _ _ HI Hleg). }
+  rewrite Hfs in Hdo.
+  destruct (recover_spec (s_cap s0) (s_thr s0) fs ib Hib) as [Hp [Hh [Hw Hcase]]].
+  remember (recover (s_cap s0) (s_thr s0) (Some fs)) as r eqn:Hr.
+  inversion Hdo; subst s1 oc. clear Hdo.
+  rewrite Hfs in Hidx. destruct Hidx as [D [HiD [HwfD HinD]]].
+  assert (HD : decode_ptrs ib = D).
+  { rewrite HiD in Hib. inversion Hib. apply decode_encode. exact HwfD. }
+  assert (Hes : exists es, (es = [] \/ es = [OCreate FCounter]) /\ s_out r = rev es /\ s_fs r = apply_all (Some fs) es).
+  { destruct Hcase as [[H1 H2]|[H1 H2]]; [exists []|exists [OCreate FCounter]]; simpl; auto. }
+  destruct Hes as [es [Hes [Ho Hf]]].
+  assert (Hg : gops (Some fs) es /\ Forall wquiet es).
+  { destruct Hes as [->| ->]; simpl; split; auto.
+    - split; auto. apply gop_side. simpl. auto.
+    - repeat constructor. }
+  destruct Hg as [Hg Hq].
+  exists es. simpl.
+  split; [rewrite Ho; reflexivity|]. split; [rewrite Hf, Hfs; reflexivity|]. split.
+  - rewrite wquiet_fold by auto.
+    assert (Hgr := gops_grows _ _ Hg).
+    constructor; simpl.
+    + exact Hh.
+    + rewrite Hf. eapply grows_index_ok; eauto. simpl. exists D. auto.
+    + unfold mem_inr. simpl. rewrite Hp, HD, Hf. intros p Hpin. eapply inrb_grows; eauto.
+    + unfold wr_ok. simpl. rewrite Hw. intros id x Hx. discriminate.
+    + rewrite Hwidx, Hf, Hfs. symmetry. apply grows_widx. exact Hgr.
+    + rewrite Hf. intros Hn. rewrite Hn in Hgr. simpl in Hgr. contradiction.
+  - split; [|destruct Hes as [->| ->]; discriminate].
+    rewrite Hfs. apply all_same_cuts_ok. apply gops_all_same; auto. simpl. exists D. auto.
+Qed.
+
+(* ------------------------------------------------------------------ garbage collection *)
+Definition gc_side (o : fsop) : Prop :=
+  match o with OCreate (FGc _) | OWrite _ (FGc _) _ _ => True | _ => False end.
+
+Definition gc_op (o : fsop) : Prop :=
+  match o with
+  | OCreate (FGc _) | OWrite _ (FGc _) _ _ | ORename (FData _) (FTmp _)
+  | ORename (FGc _) (FData _) | ORemove (FTmp _) => True
+  | _ => False
+  end.
+
+Definition swap_ops (k : N) : list fsop :=
+  [ORename (FData k) (FTmp k); ORename (FGc k) (FData k); ORemove (FTmp k)].
+
+(* the calls of a GC pass before the index rewrite: copies into <k>.domain_gc files only,
+   until the first file swap; from then on swaps, copies and removals *)
+Definition gc_shape (es : list fsop) : Prop :=
+  exists A B, es = A ++ B /\ Forall gc_side A /\ Forall gc_op B /\
+              (B = [] \/ exists k r, B = ORename (FData k) (FTmp k) :: r).
+
+Lemma gc_side_op : forall o, gc_side o -> gc_op o.
+Proof. intros o H. destruct o as [|f|b f off bs|f n|f g|f| |]; simpl in *; try contradiction; destruct f; auto. Qed.
+
+Lemma gc_shape_nil : gc_shape [].
+Proof. exists [], []. repeat split; auto. Qed.
+
+Lemma gc_shape_app_side : forall es X, gc_shape es -> Forall gc_side X -> gc_shape (es ++ X).
+Proof.
+  intros es X [A [B [-> [HA [HB Hc]]]]] HX. destruct Hc as [->|[k [r ->]]].
+  - exists (A ++ X), []. rewrite !app_nil_r. repeat split; auto. apply Forall_app; auto.
+  - exists A, ((ORename (FData k) (FTmp k) :: r) ++ X). rewrite app_assoc. repeat split; auto.
+    + apply Forall_app. split; auto. eapply Forall_impl; [|exact HX]. apply gc_side_op.
+    + right. exists k, (r ++ X). reflexivity.
+Qed.
+
+Lemma gc_shape_app_swap : forall es k, gc_shape es -> gc_shape (es ++ swap_ops k).
+Proof.
+  intros es k [A [B [-> [HA [HB Hc]]]]].
+  assert (Hs : Forall gc_op (swap_ops k)) by (repeat constructor).
+  destruct Hc as [->|[k' [r ->]]].
+  - exists A, (swap_ops k). rewrite app_nil_r. repeat split; auto. right. exists k, (tl (swap_ops k)). reflexivity.
+  - exists A, ((ORename (FData k') (FTmp k') :: r) ++ swap_ops k). rewrite app_assoc. repeat split; auto.
+    + apply Forall_app. auto.
+    + right. exists k', (r ++ swap_ops k). reflexivity.
+Qed.
+
+(* state components the GC pass leaves alone, and the coupling of s_out / s_fs *)
+Definition emits_from (s s' : st) (X : list fsop) : Prop :=
+  s_out s' = rev X ++ s_out s /\ s_fs s' = apply_all (s_fs s) X /\
+  s_head s' = s_head s /\ s_ws s' = s_ws s /\ s_cap s' = s_cap s /\ s_thr s' = s_thr s.
+
+Lemma emits_refl : forall s, emits_from s s [].
+Proof. intros. repeat split; reflexivity. Qed.
+
+Lemma emits_trans : forall a b c X Y, emits_from a b X -> emits_from b c Y -> emits_from a c (X ++ Y).
+Proof.
+  intros a b c X Y [H1 [H2 [H3 [H4 [H5 H6]]]]] [G1 [G2 [G3 [G4 [G5 G6]]]]].
+  repeat split; try congruence.
+  - rewrite G1, H1, rev_app_distr, app_assoc. reflexivity.
+  - rewrite G2, H2, apply_all_app. reflexivity.
+Qed.
+
+Lemma emits_emit : forall s o, emits_from s (emit s o) [o].
+Proof. intros. repeat split; reflexivity. Qed.
+
+Lemma gc_copy_emits : forall ps s k wpos newoff dm s' n' dm',
+  gc_copy s k ps wpos newoff dm = Some (s', n', dm') ->
+  exists X, emits_from s s' X /\ Forall gc_side X /\ s_ptrs s' = s_ptrs s.
+Proof.
+  induction ps as [|p r IH]; intros s k wpos newoff dm s' n' dm' H; simpl in H.
+  - inversion H; subst. exists []. split; [apply emits_refl|]. split; auto.
+  - destruct (read_range s k (p_off p) (p_size p)) as [buf|]; [|discriminate].
+    destruct buf as [|b0 buf0].
+    + apply IH in H. exact H.
+    + apply IH in H. destruct H as [X [HX [HF HP]]].
+      exists (OWrite false (FGc k) wpos (b0 :: buf0) :: X). split; [|split].
+      * change (OWrite false (FGc k) wpos (b0 :: buf0) :: X) with ([OWrite false (FGc k) wpos (b0 :: buf0)] ++ X).
+        eapply emits_trans; [apply emits_emit|exact HX].
+      * constructor; simpl; auto.
+      * exact HP.
+Qed.
+
+Lemma gc_file_emits : forall s k s' ab,
+  gc_file s k = (s', ab) ->
+  exists X, emits_from s s' X /\
+            (Forall gc_side X \/ exists Y, X = Y ++ swap_ops k /\ Forall gc_side Y).
+Proof.
+  intros s k s' ab H. unfold gc_file in H.
+  match type of H with
+  | (if ?c then _ else _) = _ => destruct c
+  end.
+  { inversion H; subst. exists []. split; [|left; constructor].
+    destruct (nmem k (s_unop s)); repeat split; reflexivity. }
+  set (s0 := set_unop s (nremove k (s_unop s))) in *.
+  set (s1 := if fexists s0 (FGc k) then s0 else emit s0 (OCreate (FGc k))) in *.
+  assert (H1 : exists X1, emits_from s s1 X1 /\ Forall gc_side X1).
+  { unfold s1. destruct (fexists s0 (FGc k)).
+    - exists []. split; [repeat split; reflexivity|constructor].
+    - exists [OCreate (FGc k)]. split; [repeat split; reflexivity|repeat constructor]. }
+  destruct H1 as [X1 [HE1 HS1]].
+  destruct (gc_copy s1 k _ 0%N 0%N []) as [[[s2 n2] dm]|] eqn:Ec.
+  2:{ inversion H; subst. exists X1. split; [exact HE1|left; exact HS1]. }
+  destruct (gc_copy_emits _ _ _ _ _ _ _ _ _ Ec) as [X2 [HE2 [HS2 _]]].
+  inversion H; subst s' ab. clear H.
+  exists ((X1 ++ X2) ++ swap_ops k). split.
+  - eapply emits_trans; [eapply emits_trans; eauto|].
+    match goal with |- emits_from s2 (emit ?s6 ?o3) _ => idtac end.
+    repeat split; try reflexivity.
+    + simpl. match goal with |- context [if ?c then _ else _] => destruct c end; reflexivity.
+    + simpl. match goal with |- context [if ?c then _ else _] => destruct c end; reflexivity.
+    + simpl. match goal with |- context [if ?c then _ else _] => destruct c end; reflexivity.
+    + simpl. match goal with |- context [if ?c then _ else _] => destruct c end; reflexivity.
+    + simpl. match goal with |- context [if ?c then _ else _] => destruct c end; reflexivity.
+    + simpl. match goal with |- context [if ?c then _ else _] => destruct c end; reflexivity.
+  - right. exists (X1 ++ X2). split; auto. apply Forall_app; auto.
+Qed.
+
+Lemma gc_loop_emits : forall keys s s' ab,
+  gc_loop s keys = (s', ab) ->
+  exists X, emits_from s s' X /\ forall es, gc_shape es -> gc_shape (es ++ X).
+Proof.
+  induction keys as [|k r IH]; intros s s' ab H; simpl in H.
+  - inversion H; subst. exists []. split; [apply emits_refl|]. intros es He. rewrite app_nil_r. exact He.
+  - destruct (assoc (s_open s) k).
+    + apply IH in H. exact H.
+    + destruct (negb (fexists s (FData k))).
+      * inversion H; subst. exists []. split; [apply emits_refl|]. intros es He. rewrite app_nil_r. exact He.
+      * destruct (gc_file s k) as [s1 ab1] eqn:Ef.
+        destruct (gc_file_emits _ _ _ _ Ef) as [X1 [HE1 HS1]].
+        assert (Hsh : forall es, gc_shape es -> gc_shape (es ++ X1)).
+        { intros es He. destruct HS1 as [HS|[Y [-> HY]]].
+          - apply gc_shape_app_side; auto.
+          - rewrite app_assoc. apply gc_shape_app_swap. apply gc_shape_app_side; auto. }
+        destruct ab1.
+        -- inversion H; subst. exists X1. split; auto.
+        -- apply IH in H. destruct H as [X2 [HE2 HS2]].
+           exists (X1 ++ X2). split; [eapply emits_trans; eauto|].
+           intros es He. rewrite app_assoc. apply HS2. apply Hsh. exact He.
+Qed.
+
+(* window and view facts about the calls of a GC pass *)
+Lemma gc_side_side : forall o, gc_side o -> side_op o.
+Proof. intros o H. destruct o as [|f|b f off bs|f n|f g|f| |]; simpl in *; try contradiction; destruct f; simpl; auto. Qed.
+
+Lemma side_wquiet : forall o, side_op o -> wquiet o.
+Proof.
+  intros o H w. destruct o as [|f|b f off bs|f n|f g|f| |]; simpl in *; try contradiction; auto.
+  - destruct f; simpl in H; try contradiction; reflexivity.
+  - destruct f; simpl in H; try contradiction; reflexivity.
+  - destruct H as [H1 H2]. destruct f; simpl in H1; try contradiction; destruct g; simpl in H2; try contradiction; reflexivity.
+Qed.
+
+Lemma gops_side : forall es fs, Forall side_op es -> gops (Some fs) es.
+Proof.
+  induction es as [|o r IH]; intros fs H; cbn [gops]; auto.
+  inversion H; subst. split; [apply gop_side; auto|].
+  assert (Hne : o <> ORenameDir) by (intros ->; simpl in H2; contradiction).
+  rewrite apply_some by auto. apply IH. auto.
+Qed.
+
+Definition gcT (o : fsop) : Prop := gc_op o \/ exists n, o = OTrunc FIndex n.
+
+Lemma gc_flag_step : forall w o, gcT o -> wi_gc w = true -> wi_gc (win_step w o) = true.
+Proof.
+  intros w o [H|[n ->]] Hw; [|simpl; exact Hw].
+  destruct o as [|f|b f off bs|f n|f g|f| |]; simpl in H; try contradiction.
+  - destruct f; try contradiction. simpl. exact Hw.
+  - destruct f; try contradiction. simpl. exact Hw.
+  - destruct f; try contradiction; destruct g; try contradiction; simpl; auto.
+  - destruct f; try contradiction. simpl. exact Hw.
+Qed.
+
+Lemma gc_flag_fold : forall l w, Forall gcT l -> wi_gc w = true -> wi_gc (fold_left win_step l w) = true.
+Proof.
+  induction l as [|o r IH]; intros w H Hw; simpl; auto.
+  inversion H; subst. apply IH; auto. apply gc_flag_step; auto.
+Qed.
+
+Lemma win_class_gc : forall w, wi_gc w = true -> win_class w <> 0%nat.
+Proof.
+  intros w H. unfold win_class. rewrite H.
+  destruct (wi_dir w && negb (wi_meta w)); [discriminate|].
+  destruct (wi_torn w); [discriminate|]. destruct (wi_trunc w); discriminate.
+Qed.
+
+Lemma win_torn_gc : forall w o, wi_gc (win_torn w o) = wi_gc w.
+Proof. intros w o. destruct o as [|f|b f off bs|f n|f g|f| |]; simpl; auto. destruct f; reflexivity. Qed.
+
+(* a call list that opens with a file swap and ends with the index WriteAt: every cut
+   strictly inside it lies in the GC window *)
+Lemma cuts_ok_gc_window : forall d w k r W,
+  Forall gcT r ->
+  cuts_ok d w ((ORename (FData k) (FTmp k) :: r) ++ [W]).
+Proof.
+  intros d w k r W Hr m t Hm Ht Hc.
+  set (M := ORename (FData k) (FTmp k) :: r) in *.
+  destruct m as [|m'].
+  - left. destruct Ht as [->|[o [H1 H2]]]; [reflexivity|].
+    simpl in H1. inversion H1; subst o. simpl in H2. lia.
+  - destruct (Nat.le_gt_cases (S m') (length M)) as [Hle|Hgt].
+    + exfalso. apply (win_class_gc (win_from w (M ++ [W]) (S m') t)); [|exact Hc].
+      unfold win_from.
+      assert (Hflag : wi_gc (fold_left win_step (firstn (S m') (M ++ [W])) w) = true).
+      { rewrite firstn_app. replace (S m' - length M)%nat with 0%nat by lia. simpl firstn at 2.
+        rewrite app_nil_r. unfold M. simpl firstn. simpl fold_left.
+        apply gc_flag_fold; [|reflexivity].
+        apply Forall_forall. intros o Ho. apply in_firstn in Ho.
+        rewrite Forall_forall in Hr. auto. }
+      destruct t; [exact Hflag|].
+      destruct (nth_error (M ++ [W]) (S m')) as [o'|] eqn:En.
+      * rewrite win_torn_gc. exact Hflag.
+      * exact Hflag.
+    + right. rewrite app_length in Hm. change (length [W]) with 1%nat in Hm.
+      assert (Hl : S m' = length (M ++ [W])).
+      { rewrite app_length. change (length [W]) with 1%nat. lia. }
+      rewrite Hl. rewrite crash_image_end. reflexivity.
+Qed.
+
+Lemma gc_op_keeps_index : forall X fs, Forall gc_op X ->
+  exists fsX, apply_all (Some fs) X = Some fsX /\ fget fsX FIndex = fget fs FIndex.
+Proof.
+  induction X as [|o r IH]; intros fs H.
+  - exists fs. split; reflexivity.
+  - inversion H; subst.
+    assert (Hne : o <> ORenameDir) by (intros ->; simpl in H2; contradiction).
+    rewrite apply_all_cons, apply_some by auto.
+    destruct (IH (apply_files fs o) H3) as [fsX [H4 H5]].
+    exists fsX. split; auto. rewrite H5. apply apply_files_untouched.
+    destruct o as [|f|b f off bs|f n|f g|f| |]; simpl in *; try contradiction; auto.
+    + destruct f; try contradiction; discriminate.
+    + destruct f; try contradiction; discriminate.
+    + destruct f; try contradiction; destruct g; try contradiction; intros [E|E]; discriminate.
+    + destruct f; try contradiction; discriminate.
+Qed.
+
+Lemma gc_op_idxlen : forall X w, Forall gc_op X -> wi_idxlen (fold_left win_step X w) = wi_idxlen w.
+Proof.
+  induction X as [|o r IH]; intros w H; simpl; auto.
+  inversion H; subst. rewrite IH by auto.
+  destruct o as [|f|b f off bs|f n|f g|f| |]; simpl in *; try contradiction; auto.
+  - destruct f; try contradiction; reflexivity.
+  - destruct f; try contradiction; destruct g; try contradiction; reflexivity.
+Qed.
+
+Lemma gc_cuts : forall fs w ib X P,
+  index_ok (Some fs) -> fget fs FIndex = Some ib -> wi_idxlen w = N.of_nat (length ib) ->
+  gc_shape X ->
+  cuts_ok (Some fs) w (X ++ persist_ops P 0).
+Proof.
+  intros fs w ib X P Hok Hib Hw [A [B [-> [HA [HB Hc]]]]].
+  assert (HAs : Forall side_op A) by (eapply Forall_impl; [apply gc_side_side|exact HA]).
+  assert (HAg : gops (Some fs) A) by (apply gops_side; exact HAs).
+  assert (HAsame : all_same (Some fs) A) by (apply gops_all_same; auto).
+  assert (HAq : fold_left win_step A w = w).
+  { apply wquiet_fold. eapply Forall_impl; [apply side_wquiet|exact HAs]. }
+  assert (HAop : Forall gc_op A) by (eapply Forall_impl; [apply gc_side_op|exact HA]).
+  destruct (gc_op_keeps_index A fs HAop) as [fsA [HfA HiA]].
+  rewrite <- app_assoc.
+  apply cuts_ok_app.
+  - apply all_same_cuts_ok. exact HAsame.
+  - rewrite HAq, HfA. destruct Hc as [->|[k [r ->]]].
+    + simpl. eapply persist_pair_cuts.
+      * rewrite HiA. exact Hib.
+      * exact Hw.
+      * lia.
+      * reflexivity.
+    + unfold persist_ops.
+      change ((ORename (FData k) (FTmp k) :: r) ++
+              [OTrunc FIndex (N.of_nat (length P) * ptr_size);
+               OWrite true FIndex (N.of_nat 0 * ptr_size) (encode_ptrs (skipn 0 P))])
+        with ((ORename (FData k) (FTmp k) :: r) ++
+              ([OTrunc FIndex (N.of_nat (length P) * ptr_size)] ++
+               [OWrite true FIndex (N.of_nat 0 * ptr_size) (encode_ptrs (skipn 0 P))])).
+      rewrite app_assoc.
+      change ((ORename (FData k) (FTmp k) :: r) ++ [OTrunc FIndex (N.of_nat (length P) * ptr_size)])
+        with (ORename (FData k) (FTmp k) :: (r ++ [OTrunc FIndex (N.of_nat (length P) * ptr_size)])).
+      apply cuts_ok_gc_window.
+      apply Forall_app. split.
+      * inversion HB; subst. eapply Forall_impl; [|exact H2]. intros o Ho. left. exact Ho.
+      * constructor; [right; eexists; reflexivity|constructor].
+  - left. apply all_same_end. exact HAsame.
+Qed.
+
+Lemma do_gc_good : forall s0 w s1 oc,
+  Inv s0 w -> do_gc s0 = (s1, oc) -> do_good s0 w DGC s1 oc.
+Proof.
+  intros s0 w s1 oc HI Hdo Hleg.
+  pose proof HI as [Hhead Hidx Hmem Hwr Hwidx Hnone].
+  destruct (legal_post _ _ _ _ Hleg) as [Hwf' Hex'].
+  destruct (legal_dir _ _ _ _ Hleg) as [fs [ib [Hfs Hib]]].
+  assert (Hl3 : oc = ROk /\ forallb (inrb (s_fs (clear_out s1))) (s_ptrs (clear_out s1)) = true /\
+                forallb (fun iw => N.leb (w_off (snd iw) + w_len (snd iw)) (flen (clear_out s1) (w_file (snd iw))))
+                        (s_ws (clear_out s1)) = true).
+  { unfold legal_step in Hleg. rewrite Hfs, Hib in Hleg.
+    apply andb_true_iff in Hleg. destruct Hleg as [_ Hlast].
+    apply andb_true_iff in Hlast. destruct Hlast as [Hlast H3].
+    apply andb_true_iff in Hlast. destruct Hlast as [H1 H2].
+    split; [|split; assumption]. destruct oc; simpl in H1; try discriminate. reflexivity. }
+  destruct Hl3 as [-> [Hinr Hwle]].
+  unfold do_gc in Hdo.
+  set (sg := set_open s0 _) in Hdo.
+  destruct (gc_loop sg (nseq1 (s_ctr sg))) as [sl ab] eqn:El.
+  destruct ab; [inversion Hdo|].
+  inversion Hdo; subst s1. clear Hdo.
+  destruct (gc_loop_emits _ _ _ _ El) as [X [[Ho [Hf [Hh [Hw' _]]]] Hsh]].
+  specialize (Hsh [] gc_shape_nil). simpl in Hsh.
+  assert (Hfg : s_fs sg = s_fs s0) by reflexivity.
+  assert (Hog : s_out sg = s_out s0) by reflexivity.
+  assert (Hhg : s_head sg = s_head s0) by reflexivity.
+  assert (Hwg : s_ws sg = s_ws s0) by reflexivity.
+  destruct (persist_out sl O) as [Ho2 [Hf2 [Hp2 [Hh2 [Hw2 _]]]]].
+  set (P := s_ptrs sl) in *.
+  assert (HXop : Forall gc_op X).
+  { destruct Hsh as [A [B [-> [HA [HB _]]]]]. apply Forall_app. split; auto.
+    eapply Forall_impl; [apply gc_side_op|exact HA]. }
+  destruct (gc_op_keeps_index X fs HXop) as [fsX [HfX HiX]].
+  assert (Hw0 : wi_idxlen w = N.of_nat (length ib)).
+  { rewrite Hwidx. unfold widx. rewrite Hfs. simpl. rewrite Hib. reflexivity. }
+  rewrite Hfs in Hidx.
+  assert (Hper : exists fs', apply_all (Some fsX) (persist_ops P 0) = Some fs' /\
+                             fget fs' FIndex = Some (encode_ptrs P) /\
+                             (forall f, f <> FIndex -> fget fs' f = fget fsX f)).
+  { eapply persist_view; [rewrite HiX; exact Hib|lia|reflexivity]. }
+  destruct Hper as [fs' [Ha [Hi' Hoth]]].
+  assert (Hfinal : s_fs (persist sl 0) = Some fs').
+  { rewrite Hf2, Hf, Hfg, Hfs, HfX. exact Ha. }
+  exists (X ++ persist_ops P 0).
+  split; [rewrite Ho2, Ho, Hog, rev_app_distr, app_assoc; reflexivity|].
+  split; [rewrite Hf2, Hf, Hfg, apply_all_app; reflexivity|].
+  split.
+  - change (s_fs (clear_out (persist sl 0))) with (s_fs (persist sl 0)) in Hinr, Hwle.
+    change (s_ptrs (clear_out (persist sl 0))) with (s_ptrs (persist sl 0)) in Hinr, Hwf'.
+    rewrite forallb_forall in Hinr.
+    constructor.
+    + rewrite Hh2, Hh, Hhg. exact Hhead.
+    + rewrite Hfinal. exists (s_ptrs (persist sl 0)). rewrite Hp2. split; [exact Hi'|].
+      split; [rewrite <- Hp2; exact Hwf'|].
+      intros p Hp. rewrite <- Hfinal. apply Hinr. rewrite Hp2. exact Hp.
+    + unfold mem_inr. intros p Hp. apply Hinr. exact Hp.
+    + unfold wr_ok. intros id x Hx.
+      destruct (legal_wfile _ id x Hex' Hx) as [data Hd].
+      change (s_fs (clear_out (persist sl 0))) with (s_fs (persist sl 0)) in Hd.
+      exists data. split; auto.
+      rewrite forallb_forall in Hwle. apply assoc_in in Hx. specialize (Hwle _ Hx). simpl in Hwle.
+      apply N.leb_le in Hwle. unfold flen in Hwle.
+      change (s_fs (clear_out (persist sl 0))) with (s_fs (persist sl 0)) in Hwle.
+      rewrite Hd in Hwle. exact Hwle.
+    + rewrite fold_left_app. rewrite persist_win_idx by lia.
+      unfold widx. rewrite Hfinal. simpl. rewrite Hi'. reflexivity.
+    + rewrite Hfinal. discriminate.
+  - split; [rewrite Hfs; eapply gc_cuts; eauto|].
+    intros _. rewrite Hfinal, Hp2. apply index_ok_disk; [exact Hi'|].
+    change (s_ptrs (clear_out (persist sl 0))) with (s_ptrs (persist sl 0)) in Hwf'.
+    rewrite Hp2 in Hwf'. exact Hwf'.
 Qed.
